@@ -47,7 +47,15 @@ type Node struct {
 	StyleAt   int       `json:"style_at,omitempty"` // position of the style attribute among the attributes
 }
 
+// Anc is a compound selector for an ancestor and the combinator that follows it (" " descendant, ">" child).
+type Anc struct {
+	Type  string `json:"type,omitempty"`
+	Class string `json:"class,omitempty"`
+	Comb  string `json:"comb"`
+}
+
 type Rule struct {
+	Chain []Anc  `json:"chain,omitempty"` // ancestors, outermost first
 	Type  string `json:"type,omitempty"`
 	Class string `json:"class,omitempty"`
 	ID    string `json:"id,omitempty"`
@@ -144,7 +152,7 @@ func q(t *rapid.T, label string, lo, hi int) float64 {
 
 func genNode(t *rapid.T, depth int) Node {
 	tags := []string{"rect", "circle", "ellipse", "line", "polyline", "polygon", "path", "g", "g"}
-	if depth >= 2 {
+	if depth >= 3 {
 		tags = tags[:7]
 	}
 	n := Node{Tag: tags[rapid.IntRange(0, len(tags)-1).Draw(t, "tag")]}
@@ -162,16 +170,16 @@ func genNode(t *rapid.T, depth int) Node {
 	n.Transform = genTransform(t, "tr")
 	switch n.Tag {
 	case "g":
-		k := rapid.IntRange(1, 3).Draw(t, "nchildren")
+		k := rapid.IntRange(1, 3-depth/2).Draw(t, "nchildren")
 		for i := 0; i < k; i++ {
 			n.Children = append(n.Children, genNode(t, depth+1))
 		}
 	case "rect":
 		n.Geom = []float64{q(t, "x", 0, 40), q(t, "y", 0, 40), q(t, "w", 4, 40), q(t, "h", 4, 40)}
 	case "circle":
-		n.Geom = []float64{q(t, "cx", 0, 60), q(t, "cy", 0, 60), q(t, "r", 3, 25)}
+		n.Geom = []float64{q(t, "cx", 0, 60), q(t, "cy", 0, 60), q(t, "r", 3, 12)} // large arcs are flattened with an error that grows with the radius (F03c of C03)
 	case "ellipse":
-		rx := q(t, "rx", 4, 25)
+		rx := q(t, "rx", 4, 12)
 		n.Geom = []float64{q(t, "cx", 0, 60), q(t, "cy", 0, 60), rx, rx * float64(rapid.IntRange(3, 8).Draw(t, "aspect")) / 5}
 	case "line":
 		n.Geom = []float64{q(t, "x1", 0, 60), q(t, "y1", 0, 60), q(t, "x2", 0, 60), q(t, "y2", 0, 60)}
@@ -229,6 +237,41 @@ func genCase(t *rapid.T) Case {
 	case 3:
 		c.ViewBox = []float64{0, 0, 100, 100 * hmm / wmm}
 	}
+	n := rapid.IntRange(1, 4).Draw(t, "nnodes")
+	for i := 0; i < n; i++ {
+		if rapid.IntRange(0, 3).Draw(t, "nest") == 0 {
+			// three nested groups around one shape: several ancestors match the same compound selector
+			leaf := genNode(t, 3)
+			for d := 0; d < 3; d++ {
+				g := Node{Tag: "g", Children: []Node{leaf}}
+				if rapid.Bool().Draw(t, "nestclass") {
+					g.Class = []string{"k", "m"}[rapid.IntRange(0, 1).Draw(t, "nestclassname")]
+				}
+				if rapid.IntRange(0, 3).Draw(t, "nestattr") == 0 {
+					g.Attrs = genDecls(t, "nestattrs", 2)
+				}
+				leaf = g
+			}
+			c.Nodes = append(c.Nodes, leaf)
+			continue
+		}
+		c.Nodes = append(c.Nodes, genNode(t, 0))
+	}
+	// the ancestor chains of all shapes, for rules aimed at elements that exist
+	var chains [][]Node
+	var collect func(n Node, anc []Node)
+	collect = func(n Node, anc []Node) {
+		if n.Tag != "g" {
+			chains = append(chains, append(anc[:len(anc):len(anc)], n))
+			return
+		}
+		for _, ch := range n.Children {
+			collect(ch, append(anc[:len(anc):len(anc)], n))
+		}
+	}
+	for _, nd := range c.Nodes {
+		collect(nd, nil)
+	}
 	ns := rapid.IntRange(0, 2).Draw(t, "nstyle")
 	for s := 0; s < ns; s++ {
 		var rules []Rule
@@ -248,14 +291,44 @@ func genCase(t *rapid.T) Case {
 			case 4:
 				r.Type = "*"
 			}
+			if len(chains) > 0 && rapid.IntRange(0, 2).Draw(t, "aimed") == 0 {
+				// a selector built from an existing shape and some of its ancestors, with arbitrary combinators
+				ch := chains[rapid.IntRange(0, len(chains)-1).Draw(t, "chain")]
+				subj := ch[len(ch)-1]
+				r = Rule{Type: subj.Tag}
+				if cl := strings.Fields(subj.Class); len(cl) > 0 && rapid.Bool().Draw(t, "subjclass") {
+					r.Class = cl[0]
+				}
+				for _, a := range ch[:len(ch)-1] {
+					if rapid.IntRange(0, 2).Draw(t, "skipanc") == 0 {
+						continue
+					}
+					an := Anc{Type: "g", Comb: []string{" ", ">"}[rapid.IntRange(0, 1).Draw(t, "comb")]}
+					if cl := strings.Fields(a.Class); len(cl) > 0 && rapid.Bool().Draw(t, "ancclass2") {
+						an.Class = cl[0]
+					}
+					r.Chain = append(r.Chain, an)
+				}
+				if len(r.Chain) > 2 {
+					r.Chain = r.Chain[len(r.Chain)-2:]
+				}
+			} else if rapid.IntRange(0, 2).Draw(t, "combinator") == 0 {
+				na := rapid.IntRange(1, 2).Draw(t, "nanc")
+				for k := 0; k < na; k++ {
+					a := Anc{Comb: []string{" ", ">"}[rapid.IntRange(0, 1).Draw(t, "comb")]}
+					if rapid.IntRange(0, 3).Draw(t, "anctype") != 0 {
+						a.Type = "g"
+					}
+					if a.Type == "" || rapid.IntRange(0, 2).Draw(t, "ancclass") == 0 {
+						a.Class = []string{"k", "m"}[rapid.IntRange(0, 1).Draw(t, "ancclassname")]
+					}
+					r.Chain = append(r.Chain, a)
+				}
+			}
 			r.Decls = genDecls(t, "rule", 3)
 			rules = append(rules, r)
 		}
 		c.Rules = append(c.Rules, rules)
-	}
-	n := rapid.IntRange(1, 4).Draw(t, "nnodes")
-	for i := 0; i < n; i++ {
-		c.Nodes = append(c.Nodes, genNode(t, 0))
 	}
 	c.Sep = rapid.IntRange(0, 2).Draw(t, "sep")
 	return c
@@ -276,7 +349,19 @@ func (c Case) XML() string {
 	for _, rules := range c.Rules {
 		sb.WriteString("<style>")
 		for _, r := range rules {
-			sel := r.Type
+			sel := ""
+			for _, a := range r.Chain {
+				sel += a.Type
+				if a.Class != "" {
+					sel += "." + a.Class
+				}
+				if a.Comb == ">" {
+					sel += " > "
+				} else {
+					sel += " "
+				}
+			}
+			sel += r.Type
 			if r.Class != "" {
 				sel += "." + r.Class
 			}
@@ -371,7 +456,43 @@ type props map[string]string
 
 var initial = props{"fill": "black", "stroke": "none", "stroke-width": "1", "fill-rule": "nonzero", "stroke-linecap": "butt", "stroke-linejoin": "miter", "stroke-miterlimit": "4", "stroke-dasharray": "none", "stroke-dashoffset": "0"}
 
-func (r Rule) matches(n Node) bool {
+func hasClass(n Node, class string) bool {
+	for _, cl := range strings.Fields(n.Class) {
+		if cl == class {
+			return true
+		}
+	}
+	return false
+}
+
+// matches implements selector matching from the subject leftwards with backtracking: a child combinator fixes the parent, a descendant combinator tries every ancestor.
+func (r Rule) matches(n Node, anc []Node) bool {
+	if !r.matchesSubject(n) {
+		return false
+	}
+	var up func(i int, k int) bool // chain element i must match an ancestor; k is the index of the element already matched (len(anc) for the subject)
+	up = func(i, k int) bool {
+		if i < 0 {
+			return true
+		}
+		a := r.Chain[i]
+		ok := func(m Node) bool {
+			return (a.Type == "" || a.Type == m.Tag) && (a.Class == "" || hasClass(m, a.Class))
+		}
+		if a.Comb == ">" {
+			return k-1 >= 0 && ok(anc[k-1]) && up(i-1, k-1)
+		}
+		for j := k - 1; j >= 0; j-- {
+			if ok(anc[j]) && up(i-1, j) {
+				return true
+			}
+		}
+		return false
+	}
+	return up(len(r.Chain)-1, len(anc))
+}
+
+func (r Rule) matchesSubject(n Node) bool {
 	if r.Type != "" && r.Type != "*" && r.Type != n.Tag {
 		return false
 	}
@@ -403,11 +524,19 @@ func (r Rule) specificity() int {
 	if r.Type != "" && r.Type != "*" {
 		s++
 	}
+	for _, a := range r.Chain {
+		if a.Class != "" {
+			s += 10
+		}
+		if a.Type != "" {
+			s++
+		}
+	}
 	return s
 }
 
 // cascade returns the computed properties of n: inherited values, overridden by presentation attributes, then by matching rules in order of specificity and position, then by the style attribute. conflict reports whether precedence between the sources actually mattered.
-func (c Case) cascade(n Node, inherited props) (props, bool) {
+func (c Case) cascade(n Node, anc []Node, inherited props) (props, bool) {
 	p := props{}
 	for k, v := range inherited {
 		p[k] = v
@@ -426,7 +555,7 @@ func (c Case) cascade(n Node, inherited props) (props, bool) {
 	pos := 0
 	for _, rules := range c.Rules {
 		for _, r := range rules {
-			if r.matches(n) {
+			if r.matches(n, anc) {
 				ms = append(ms, mr{r, pos})
 			}
 			pos++
@@ -517,9 +646,9 @@ func (c Case) Model() (*dl.Doc, modelInfo, error) {
 		ty := (doc.H-c.ViewBox[3]*s)/2 - c.ViewBox[1]*s
 		base = oracle.Translate(tx, ty).Mul(oracle.Scale(s, s))
 	}
-	var walk func(n Node, ctm oracle.Mat, inh props, depth int) error
-	walk = func(n Node, ctm oracle.Mat, inh props, depth int) error {
-		p, conflict := c.cascade(n, inh)
+	var walk func(n Node, anc []Node, ctm oracle.Mat, inh props, depth int) error
+	walk = func(n Node, anc []Node, ctm oracle.Mat, inh props, depth int) error {
+		p, conflict := c.cascade(n, anc, inh)
 		if conflict {
 			info.conflict = true
 		}
@@ -529,7 +658,7 @@ func (c Case) Model() (*dl.Doc, modelInfo, error) {
 		if n.Tag == "g" {
 			for _, ch := range n.Children {
 				info.nested = true
-				if err := walk(ch, ctm, p, depth+1); err != nil {
+				if err := walk(ch, append(anc[:len(anc):len(anc)], n), ctm, p, depth+1); err != nil {
 					return err
 				}
 			}
@@ -615,7 +744,7 @@ func (c Case) Model() (*dl.Doc, modelInfo, error) {
 		return nil
 	}
 	for _, n := range c.Nodes {
-		if err := walk(n, oracle.Identity(), initial, 0); err != nil {
+		if err := walk(n, nil, oracle.Identity(), initial, 0); err != nil {
 			return nil, info, err
 		}
 	}
